@@ -1,3 +1,4 @@
+import XPathV.Lemmas.Pull2Gen.NonVacuity
 import XPathV.Theorems.C02
 import XPathV.Theorems.NonVacuity.Common
 /-!
